@@ -4,7 +4,7 @@
 # seeded changes can be checked at the same time and /repo stays untouched.  Prints exit code and VIOLATION lines.
 WT=$1; P=$2; PROP=$3; shift 3
 cd /verif
-git -C $WT checkout -q -- . ; git -C $WT diff --quiet || { echo "$WT not clean"; exit 3; }
+git -C $WT checkout -q -- . ; git -C $WT checkout -q --detach $(git -C /repo rev-parse HEAD) ; git -C $WT diff --quiet || { echo "$WT not clean"; exit 3; }
 git -C $WT apply $P || { echo "patch does not apply"; exit 3; }
 LOG=$WT/_check_$PROP.log
 AVEL_REPO=$WT VERIF_CACHE=$WT/_verif_cache VERIF_REPLAYS=$WT/_replays VERIF_SCRATCH=$WT/_scratch python3 run.py --property $PROP --tier quick --no-evidence "$@" > $LOG 2>&1; rc=$?
